@@ -308,6 +308,15 @@ def l2_wait_for(ctx, rep):
                 rep.check(not clash, R, k, s.where,
                           "send(%s) on the %s channel while holding {%s}: the consumer role %s never takes those" % (b["what"], b["chan"], ", ".join(sorted(H)), w),
                           "send(%s) on the %s channel can block while holding {%s}; the only party that makes room (role %s) takes %s on its way: both wait for each other" % (b["what"], b["chan"], ", ".join(sorted(H)), w, sorted(clash)))
+            # transitively: the consumer needs a lock x that some thread holds while it waits
+            # for a lock this sender holds (lock-order edge x -> h, h held here): sender waits
+            # for the consumer, consumer for x, x's holder for h
+            trans = sorted({(x_, h_) for (x_, h_, _w, _r, _d) in ra.edges if x_ != h_ and h_ in H and x_ in ACQ[w] and x_ not in H})
+            k3 = "blocking-send-closes-a-wait-cycle:%s:%s:held=%s" % (fn, b["what"], "+".join(sorted(H)) or "-")
+            if (k3, "t") not in seen:
+                seen.add((k3, "t"))
+                rep.check(not trans, R, k3, s.where, "no thread holds a lock the consumer needs while waiting for a lock held across this send",
+                          "send(%s) on the %s channel can block while holding {%s}; its consumer (role %s) needs %s, which another thread holds while it waits for %s: three-way wait cycle" % (b["what"], b["chan"], ", ".join(sorted(H)), w, sorted({x for x, h in trans}), sorted({h for x, h in trans})))
             if b["role"] == w:
                 k2 = "self-wait:%s:%s" % (fn, b["what"])
                 if (k2, "s") not in seen:
